@@ -54,7 +54,7 @@ FLOORS = {
             "assert:multihead-reference": 600, "assert:bias-flag": 2500, "assert:bias-effect": 2500,
             "assert:single-kept-exact": 70,
         },
-        "classes": dict({c: 100 for c in CLASSES}, neg_dim_call=120, mask_none=200, mh_masked=500,
+        "classes": dict({c: 100 for c in CLASSES}, neg_dim_call=120, mask_none=200, mh_masked=500, mask_lower_rank=40,
                         mh_mask_last_eq_heads_nonconstant=100, query_broadcasts=350, float64=250,
                         rank2=150, rank3=300, rank4=300, rank5=150),
         "sets": {"bias_flags": 16, "flavour_rank_dim": 66, "mh_inner_heads": 12},
@@ -190,10 +190,16 @@ def generate(rng, tier, i):
     no_mask = cls == "no_mask" or (cls not in ("single_kept", "mh_single_kept", "mh_mask_last_eq_heads")
                                    and rng.random() < 0.15)
     mask = None
+    mask_off = 0
     if not no_mask:
         pk = rng.choice([0.25, 0.5, 0.5, 0.8])
-        mask = _nested(rng, msk_b, pk)
-        _fix_mask(rng, mask, msk_b, p, cls in ("single_kept", "mh_single_kept"))
+        if p >= 1 and cls != "mh_mask_last_eq_heads" and rng.random() < 0.35:
+            # a mask of LOWER RANK than the scores (leading batch dims left out altogether): it still
+            # broadcasts, e.g. one (Lk, Lq) mask shared by a whole batch of (N, Lk, Lq) scores
+            mask_off = rng.randint(1, p)
+        msk_shape = msk_b[mask_off:]
+        mask = _nested(rng, msk_shape, pk)
+        _fix_mask(rng, mask, msk_shape, p - mask_off, cls in ("single_kept", "mh_single_kept"))
     # ---- module spec
     if cls == "no_mask" or cls == "saturated" or cls == "rank2":
         multi = rng.random() < 0.4
@@ -227,7 +233,8 @@ def generate(rng, tier, i):
     return {
         "class": cls, "spec": spec, "n": n, "pos": p,
         "query_shape": qry_b + [spec["query_size"]], "key_shape": key_b + [spec["key_size"]],
-        "value_shape": val_b + [vsize], "mask": mask, "dtype": dtype, "seed": rng.getrandbits(31),
+        "value_shape": val_b + [vsize], "mask": mask, "mask_leading_dims_dropped": mask_off, "dtype": dtype,
+        "seed": rng.getrandbits(31),
         "qk_scale": qk_scale, "v_offset": rng.choice([0.0, 0.0, 10.0, 100.0, -50.0]),
         "v_noise": rng.choice([1.0, 1.0, 0.1]), "p_scale": rng.choice([0.5, 1.0]),
     }
@@ -421,6 +428,8 @@ def execute(case, mon):
     mon.observe("flavour_rank_dim", "%s/%s/%d/%d" % ("mh" if multi else "sh", inner_fl, n, spec["dim"]))
     if spec["dim"] < 0:
         mon.cls("neg_dim_call")
+    if mask is not None and case.get("mask_leading_dims_dropped"):
+        mon.cls("mask_lower_rank")
     if mask is None:
         mon.cls("mask_none")
     elif multi:
@@ -536,8 +545,9 @@ def execute(case, mon):
             k3 = k.index_select(pos, perm)
             v3 = v.index_select(pos, perm) if v.shape[pos] == T else v
             m3 = mask
-            if mask is not None and mask.shape[pos] == T:
-                m3 = mask.index_select(pos, perm)
+            mpos = pos - int(case.get("mask_leading_dims_dropped") or 0)  # the mask's own sequence dim
+            if mask is not None and mask.shape[mpos] == T:
+                m3 = mask.index_select(mpos, perm)
             out3 = soft.run(_call, mon, mod, q, k3, v3, m3)
             if out3 is not None:
                 soft.run(_cmp, mon, "permutation", out3, out, c_sum, dtype, perm=perm.tolist())
